@@ -11,7 +11,7 @@ pub struct Mutant {
     pub frame: usize,
 }
 
-pub const N_CLASSES: u64 = 41;
+pub const N_CLASSES: u64 = 42;
 
 /// Re-serialises all frames after the (unchanged) metadata prefix.
 pub fn reserialize(gs: &mut GenStream) {
@@ -494,6 +494,35 @@ pub fn mutate(gs: &mut GenStream, ch: &mut dyn Chooser, class: u64, fi: usize) -
                 si[12] = (si[12] & 0x0F) | (((nr & 0xF) as u8) << 4);
             });
             return Some(Mutant { class: "streaminfo-rate-differs", must_reject: true, frame: fi });
+        }
+        41 => {
+            // the 16-bit block-size field says 65536 (illegal) while the frame really holds 65535
+            // samples per channel and STREAMINFO allows 65535: only the field value itself is wrong
+            if nframes != 1 {
+                return None;
+            }
+            for s in ir.subs.iter_mut() {
+                s.type_code = 0;
+                s.body = SubBody::Constant(-(ch.below(2) as i64));
+            }
+            ir.bs = 65535;
+            ir.bs_code = 7;
+            ir.bs_extra = Some((16, 65535));
+            patch_streaminfo(gs, |si| {
+                si[0] = 0xFF;
+                si[1] = 0xFF;
+                si[2] = 0xFF;
+                si[3] = 0xFF;
+                // frame sizes, total and MD5 unknown
+                for b in &mut si[4..10] {
+                    *b = 0;
+                }
+                si[13] &= 0xF0;
+                for b in &mut si[14..34] {
+                    *b = 0;
+                }
+            });
+            return Some(Mutant { class: "blocksize-field-65536-on-65535-sample-frame", must_reject: true, frame: fi });
         }
         _ => {
             // wasted bits at the maximum legal value with data at the rails
